@@ -48,6 +48,8 @@ def run_child(args):
     rec = verdict.Rec(args.prop, args.tier, args.seed, shard, nshards, budget_s=budget,
                       known_keys=verdict.load_known(args.prop).keys())
     rec.mode = os.environ.get('VERIF_MODE', 'pure')
+    import faulthandler
+    faulthandler.dump_traceback_later(budget * 4 + 120, exit=True)   # stuck case: show where, then die
     try:
         if args.replay:
             w = json.load(open(args.replay))
@@ -106,43 +108,57 @@ def main():
                 env_extra.update(twins.env_for(mode, tdir))
             for i in range(nshards):
                 plan.append((mode, i, env_extra))
-        procs = []
-        for mode, i, env_extra in plan:
-            out = os.path.join(scratch, 'shard-%s-%d.json' % (mode, i))
-            cmd = [PY, os.path.join(HERE, 'check.py'), args.prop, '--tier', args.tier, '--seed', str(args.seed),
-                   '--shard', '%d/%d' % (i, nshards), '--out', out]
-            if args.replay:
-                cmd += ['--replay', args.replay]
-            log = open(os.path.join(scratch, 'shard-%s-%d.log' % (mode, i)), 'w')
-            p = subprocess.Popen(cmd, env=child_env(env_extra), stdout=log, stderr=subprocess.STDOUT, cwd=HERE)
-            procs.append((mode, i, p, out, log))
-        deadline = time.monotonic() + budget * 4 + 180
-        for mode, i, p, out, log in procs:
-            try:
-                rc = p.wait(timeout=max(1, deadline - time.monotonic()))
-            except subprocess.TimeoutExpired:
-                p.kill()
-                p.wait()
-                rc = 'watchdog'
+        pending = list(plan)
+        running = []
+        maxpar = int(os.environ.get('VERIF_JOBS', os.cpu_count() or 4))
+        per_child_limit = budget * 4 + 180
+
+        def finish(mode, i, p, out, log, rc):
             log.close()
             logtxt = open(log.name, errors='replace').read()
             if rc != 0 or not os.path.exists(out):
                 tail = logtxt[-3000:]
                 san = ('ERROR: AddressSanitizer' in logtxt) or ('runtime error:' in logtxt)
                 if san and mode != 'pure':
-                    d = {'prop': args.prop, 'shard': i, 'counters': {'violations': 1}, 'evaluations': 0, 'distinct': [],
-                         'buckets': {}, 'samples': [], 'violations': [{'kind': 'sanitizer-report', 'witness': {'mode': mode, 'log_tail': tail}}],
-                         'known': {}, 'floors': {}, 'notes': [], 'exhaustive': None, 'rule': '', 'assumptions': [],
-                         'inconclusive': [], 'wall_s': 0.0}
-                    dumps.append(d)
+                    dumps.append({'prop': args.prop, 'shard': i, 'counters': {'violations': 1}, 'evaluations': 0,
+                                  'distinct': [], 'buckets': {}, 'samples': [],
+                                  'violations': [{'kind': 'sanitizer-report', 'witness': {'mode': mode, 'log_tail': tail}}],
+                                  'known': {}, 'floors': {}, 'notes': [], 'exhaustive': None, 'rule': '',
+                                  'assumptions': [], 'inconclusive': [], 'wall_s': 0.0})
                 else:
                     extra_inconclusive.append('shard %s/%d ended with %r: %s' % (mode, i, rc, tail[-600:].replace('\n', ' | ')))
-                continue
+                return
             if logtxt.strip() and os.environ.get('VERIF_VERBOSE'):
                 print(logtxt)
             d = json.load(open(out))
             d['shard'] = i
             dumps.append(d)
+
+        while pending or running:
+            while pending and len(running) < maxpar:
+                mode, i, env_extra = pending.pop(0)
+                out = os.path.join(scratch, 'shard-%s-%d.json' % (mode, i))
+                cmd = [PY, os.path.join(HERE, 'check.py'), args.prop, '--tier', args.tier, '--seed', str(args.seed),
+                       '--shard', '%d/%d' % (i, nshards), '--out', out]
+                if args.replay:
+                    cmd += ['--replay', args.replay]
+                log = open(os.path.join(scratch, 'shard-%s-%d.log' % (mode, i)), 'w')
+                p = subprocess.Popen(cmd, env=child_env(env_extra), stdout=log, stderr=subprocess.STDOUT, cwd=HERE)
+                running.append((mode, i, p, out, log, time.monotonic()))
+            still = []
+            for mode, i, p, out, log, ts in running:
+                rc = p.poll()
+                if rc is None and time.monotonic() - ts > per_child_limit:
+                    p.kill()
+                    p.wait()
+                    rc = 'watchdog'
+                if rc is None:
+                    still.append((mode, i, p, out, log, ts))
+                else:
+                    finish(mode, i, p, out, log, rc)
+            running = still
+            if running:
+                time.sleep(0.05)
         m = verdict.merge(dumps) if dumps else verdict.merge([])
         rc = verdict.finalize(args.prop, args.tier, args.seed, level, m, time.monotonic() - t0, extra_inconclusive)
     finally:
